@@ -255,7 +255,8 @@ func instrument(rel string, src []byte, keepFuncs []string) []byte {
 	}
 	for p := range red {
 		if !seenRed[p] && keepFuncs == nil {
-			die("%s: import %q to redirect not found", rel, p)
+			// the file no longer imports the package (a change dropped its last use): nothing to redirect
+			stats["redirects_absent"]++
 		}
 	}
 	// add the simrt import as its own declaration right after the package clause
